@@ -308,6 +308,16 @@ static bool mutate(int kind)
             }
             return false;
         }
+        case 11: {              /* append a block that is itself segmented (two chained segments) */
+            uint8_t b1[8], b2[8];
+            struct ubuf *B = fresh(1, b1), *B2 = fresh(SB, b2);
+            VASSERT(ubase_check(ubuf_block_append(B, B2)), "append succeeds");
+            int err = ubuf_block_append(A, B);
+            VASSERT(ubase_check(err), "append of a segmented block succeeds");
+            mdl_insert(&M, L, b1, NULL, 1);
+            mdl_insert(&M, L + 1, b2, NULL, SB);
+            return true;
+        }
         default: {              /* dup */
             struct ubuf *D = ubuf_dup(A);
             VASSERT(D != NULL, "dup succeeds");
